@@ -423,6 +423,12 @@ impl Property for C16 {
             .map(|s| s.to_string())
             .collect()
     }
+    fn supervisor_phase(&self, ctx: &mut Ctx, env: &Env) {
+        if ctx.tier == Tier::Thorough {
+            // hex / base64 / bech32 / serde_json `unsafe` code reached with hostile strings: the same cases under Miri
+            miri_cross_run(ctx, env, "C16", &[MiriPlan { phase: "coercions", cases: 320 }, MiriPlan { phase: "requests", cases: 64 }], 540);
+        }
+    }
     fn run_case(&self, ctx: &mut Ctx, phase: &str, idx: u64, rng: &mut Rng) {
         if phase == "coercions" {
             self.coercions(ctx, idx, rng)
